@@ -618,6 +618,9 @@ def _none_intolerant_use(fa, x):
     """How the value of expression `x` is consumed, when that fails for None: a description, or None when the use is
     harmless for None (formatting with {} / %s / an f-string, logging, str(), tests, comparisons by identity or
     equality, assignment, being returned)."""
+    st = fa.stmt_of(x)
+    if isinstance(st, ast.Assert) and (x is st.test or fa.inside(x, st.test)):
+        return "`%s` asserts it" % A.short(st, 50)
     n = x
     while True:
         p = fa.pm.get(n)
